@@ -166,8 +166,10 @@ func (t *tcpTransport) Receive(ctx context.Context) (envelope, error) {
 }
 
 func (t *tcpTransport) Close() error {
-	if err := t.ensureOpen(); err != nil {
-		return err
+	// The connection should be closed even if the remote party has already
+	// closed its end (EOF), otherwise it would never be released.
+	if t.conn == nil {
+		return errors.New("transport is not open")
 	}
 
 	err := t.ctxConn.Close()
